@@ -53,6 +53,10 @@ func Gen(store string) func(t *rapid.T) *Case {
 				rs.CrashBefore = rapid.Bool().Draw(t, "crashBefore")
 			case 1:
 				rs.FaultAt = rapid.IntRange(1, 30).Draw(t, "faultAt")
+			case 2:
+				if c.Store == "sqlite" {
+					rs.RowFault = rapid.IntRange(1, 8).Draw(t, "rowFault")
+				}
 			}
 			c.Runs = append(c.Runs, rs)
 		}
